@@ -679,6 +679,24 @@ def _find_commit(node, depth=0):
     return None
 
 
+def gen_alias_session(rng):
+    """two copies of ONE big map (DUP) that have since diverged on the same key — one rebinds or removes what the other still binds —
+    then failing cells, then each copy is read: a rollback restores every copy as it was, not one of them twice"""
+    k, k2 = rng.sample(range(0, 4), 2)
+    cells = [f'EMPTY_BIG_MAP nat string ; PUSH string "a{k}" ; SOME ; PUSH nat {k} ; UPDATE'
+             + (f' ; PUSH string "b" ; SOME ; PUSH nat {k2} ; UPDATE' if rng.random() < 0.5 else '')]
+    change = rng.choice([f'PUSH string "z" ; SOME ; PUSH nat {k} ; UPDATE', f'NONE string ; PUSH nat {k} ; UPDATE'])
+    cells.append(f'DUP ; {change}')
+    fails = ['PUSH nat 1 ; FAILWITH', 'DIP {{ UNIT ; FAILWITH }}', 'DROP ; DROP ; DROP', 'DIP {{ DIP {{ UNIT ; FAILWITH }} }}', 'PUSH int 1 ; PUSH string "x" ; ADD', 'DUP ; )']
+    for _ in range(rng.randrange(1, 3)):
+        cells.append(rng.choice(fails).format())
+    cells.append(rng.choice([f'SWAP ; PUSH nat {k} ; GET', f'DIP {{ PUSH nat {k} ; GET }}', f'DUP 2 ; PUSH nat {k} ; MEM']))
+    if rng.random() < 0.5:
+        cells.append(rng.choice(fails).format())
+    cells.append(rng.choice([f'DROP ; PUSH nat {k} ; GET', 'SWAP', f'PUSH nat {k} ; GET']))
+    return cells
+
+
 def gen_lazy_session(rng):
     """sessions around COMMIT with the lazy-storage kinds (big_map, sapling_state, both in a pair): ids are handed out in commit order,
     whatever failed in between"""
@@ -885,7 +903,7 @@ def run(ctx):
                              gl[j] if j < len(gl) else '(missing)', ml[j] if j < len(ml) else '(missing)')
     # ---- raw-text stream: property oracle on the real interpreter only
     n_raw = 700 if quick else 6000
-    raws = [list(c) for c in RAW_REGRESSIONS] + [gen_raw_session(ctx.rng, 7 if quick else 14) for _ in range(n_raw)] + [gen_identity_session(ctx.rng) for _ in range(n_raw // 2)] + [gen_lazy_session(ctx.rng) for _ in range(n_raw // 10)]
+    raws = [list(c) for c in RAW_REGRESSIONS] + [gen_raw_session(ctx.rng, 7 if quick else 14) for _ in range(n_raw)] + [gen_identity_session(ctx.rng) for _ in range(n_raw // 2)] + [gen_lazy_session(ctx.rng) for _ in range(n_raw // 10)] + [gen_alias_session(ctx.rng) for _ in range(n_raw // 10)]
     shrunk = 0
     for cells in raws:
         full = run_raw(cells)
